@@ -30,6 +30,11 @@ import (
 
 var root = "/verif"
 
+func repoKey() string {
+	key := sha1.Sum([]byte(repoDir()))
+	return hex.EncodeToString(key[:6])
+}
+
 func repoDir() string {
 	if r := os.Getenv("VERIF_REPO"); r != "" {
 		return r
@@ -70,6 +75,7 @@ func init() {
 	reg(&spec{ID: "C14", Pkg: "./harness/c14", Level: "model_checking", ShardsQ: n, ShardsT: n, DeadQ: 240, DeadT: 1800})
 	reg(&spec{ID: "C15", Pkg: "./harness/c15", Level: "exploration", ShardsQ: n, ShardsT: n, DeadQ: 240, DeadT: 1800,
 		InstrFiles: []instrSpec{{File: "terminfo/terminfo.go", Time: true}}})
+	reg(&spec{ID: "C20", Pkg: "./harness/c20", Level: "model_checking", ShardsQ: n, ShardsT: n, DeadQ: 240, DeadT: 1800})
 	reg(&spec{ID: "C16", Pkg: "./harness/c16", Level: "exploration", ShardsQ: n, ShardsT: n, DeadQ: 150, DeadT: 1500})
 }
 
@@ -135,7 +141,7 @@ func prepareBuild(sp *spec) (modfile, overlay string) {
 
 func build(sp *spec) string {
 	modfile, overlay := prepareBuild(sp)
-	bin := filepath.Join(root, ".cache", "bin", sp.ID)
+	bin := filepath.Join(root, ".cache", "bin", repoKey(), sp.ID)
 	os.MkdirAll(filepath.Dir(bin), 0o755)
 	args := []string{"build", "-tags", "verif", "-overlay", overlay, "-modfile", modfile, "-o", bin}
 	if sp.Race {
@@ -261,7 +267,7 @@ func runCheck(sp *spec, tier string, extra []string) int {
 		dead, _ = strconv.Atoi(d)
 	}
 	only, _ := hasFlag(extra, "--only")
-	tmp := filepath.Join(root, ".cache", "run", sp.ID+"-"+tier)
+	tmp := filepath.Join(root, ".cache", "run", repoKey(), sp.ID+"-"+tier)
 	os.RemoveAll(tmp)
 	os.MkdirAll(tmp, 0o755)
 
@@ -468,6 +474,9 @@ func writeReplay(id string, v hc.Violation) string {
 	b, _ := json.MarshalIndent(v, "", " ")
 	h := sha1.Sum([]byte(v.Signature))
 	dir := filepath.Join(root, "replays", id)
+	if os.Getenv("VERIF_NOEVIDENCE") != "" {
+		dir = filepath.Join(root, ".cache", "replays-selftest", id)
+	}
 	os.MkdirAll(dir, 0o755)
 	path := filepath.Join(dir, hex.EncodeToString(h[:5])+".json")
 	os.WriteFile(path, b, 0o644)
@@ -475,6 +484,9 @@ func writeReplay(id string, v hc.Violation) string {
 }
 
 func writeEvidence(sp *spec, m *hc.Result, seed int64, nviol int) {
+	if os.Getenv("VERIF_NOEVIDENCE") != "" {
+		return // self-test runs against scratch worktrees must not overwrite evidence
+	}
 	cov := map[string]interface{}{}
 	evals := m.Evaluations
 	if evals == 0 {
